@@ -319,8 +319,18 @@ SCANRULES = (" Verif.Props.ScanRules (faithful per-token state machines of MD003
 REGENLEAF = (" Verif.Props.RegenLeaf (faithful model of the container-free Markdown regenerator: TransformToMarkdown.transform main loop, final-newline correction, "
              "every leaf / inline / front-matter rehydrate handler, paragraph rehydrate_index in an object store; tied to the real transform on 340 k distinct real and "
              "field-mutated streams, 68 k real exceptions at 27 call sites agreed): ")
+LISTSTARTS = (" Verif.Props.ListStarts (faithful model of list-item start recognition for an ARBITRARY stack: list_block_starts_helper, list_block_pre_list_helper, "
+              "list_block_can_close_helper with the close_open_blocks pop and find_last_block_quote_on_stack; real functions on real stack / token objects in a real ParserState: "
+              "117 M requests thorough + 258 k calls harvested from 19 k parses, line coverage 422 of 422): ")
 EXTRA2 = {
- "C01": [INLINELOOP + "inline_loop_terminates (turns <= number of inline start characters; fuel always sufficient), inline_loop_total (under the guard envOK and the contract the only "
+ "C03": [LISTSTARTS + "list_start_spec (accepts exactly the CommonMark marker sentence; marker_sentence_is_leanmark ties the sentence to LeanMark's listMarker?), "
+         "list_start_decomposition (the verdict for any stack), same_list_spec (5.3: same bullet character / delimiter continues the list), interrupt_spec_partial + interrupt_excluded "
+         "('a\\n01. b': is_not_one compares the text with \"1\"), content_column_spec_partial + two excluded witnesses recorded from real runs ('- -   \\n    a' gives indent 6, spec 4), "
+         "list_start_nested_spec_partial + witness ('- a\\n      - c' becomes a nested list: the parent indent is counted twice), first_item_clause_inert (dead logic), columns_conserved."],
+ "C01": [LISTSTARTS + "list_start_total (every Int start index, guard StackOK, list_start_excluded witnesses), pre_list_total / pre_list_excluded, close_required_total, "
+         "close_required_prefix, can_remove_total, can_close_terminates; root cause of the call-site finding F-TOK-AE-handle_list_nesting located (stack_count >= current_count + 2 runs "
+         "the nesting loop twice: '> > a\\n- b').",
+         INLINELOOP + "inline_loop_terminates (turns <= number of inline start characters; fuel always sufficient), inline_loop_total (under the guard envOK and the contract the only "
          "errors are a handler's own; six excluded-point witnesses, one per contract clause, each replayed on the real loop with a stub registered in the real handler table). Tie: real loop "
          "vs model on all strings <= 5 over the inline alphabet x 9 environments (1.69 M cases thorough) and every one of 5.2 M recorded loop turns of real parses is a legal model transition."],
  "C08": [REGENLEAF + "regen_field_local (changing one style field of one leaf token — ATX hash count, fence character, thematic break text … — changes only that token's own "
